@@ -145,6 +145,15 @@ func C16(c *Ctx) {
 			}
 		}
 		r.Check(okA, "C16-a", "T.parseExpr:budget-check-first", vn, v.Where(pe.Pos()), "increment and compare before the dispatch", "parseExpr does not start with the budget increment and comparison")
+		// the counter only ever grows: its single writer is the increment in parseExpr
+		var cw []string
+		for _, w := range fieldWrites(v) {
+			if w.Field == "ExprCnt" && !(w.Func == "parseExpr" && w.Kind == "incdec") {
+				cw = append(cw, v.Where(w.Pos)+": "+w.Func+" stores to ExprCnt ("+w.Text+", "+w.Kind+")")
+			}
+		}
+		sort.Strings(cw)
+		r.Check(len(cw) == 0, "C16-a", "T.ExprCnt:monotone-single-writer", vn, "builder/static_code.go", "only p.ExprCnt++ in parseExpr", strings.Join(cw, "; ")+": evaluated expressions can go uncounted, so the budget no longer bounds the work")
 		// ---- b
 		mc := mustCharge(a)
 		var mcl []string
